@@ -6,7 +6,11 @@ use rs1090::decode::cpr::airborne_position;
 use serde_json::json;
 
 pub fn airborne_msg(yz: u32, xz: u32, odd: bool) -> AirbornePosition {
-    let me = frames::me_airborne(11, 0, 0, frames::ac12_from_n(1400), 0, odd as u8, yz, xz);
+    // everything around the CPR fields takes all its values as the counts run: type code 9-18 and 20-22, surveillance
+    // status, NIC supplement / antenna flag, altitude, time bit. The position is a function of the CPR fields alone.
+    let h = ((yz as u64) << 17 | xz as u64).wrapping_mul(0x9E37_79B9_7F4A_7C15) >> 32;
+    let tcs = [9u8, 10, 11, 12, 13, 14, 15, 16, 17, 18, 20, 21, 22];
+    let me = frames::me_airborne(tcs[(h % 13) as usize], ((h >> 4) % 4) as u8, ((h >> 6) % 2) as u8, frames::ac12_from_n(100 + ((h >> 8) % 1600) as u16), ((h >> 20) % 2) as u8, odd as u8, yz, xz);
     AirbornePosition::try_from(&me[..]).expect("harness: airborne ME must parse")
 }
 
@@ -41,6 +45,24 @@ fn one(c: &mut Ctx, lat: f64, lon: f64, class: &'static str) {
     c.nl_seen[hemi][e.nl_rlat as usize] += 1;
     for (first, second, order) in [(&me, &mo, "even,odd"), (&mo, &me, "odd,even")] {
         c.r.evaluations += 1;
+        // One pair in four has been through a decoder before (decode_position writes its result into the message it
+        // stores): the older and/or the newer report carry position fields, filled in from a place on the other side of
+        // the globe. The result may depend on the transmitted bits only.
+        let h = ((e.yz as u64) << 17 ^ o.xz as u64).wrapping_mul(0x9E37_79B9_7F4A_7C15) >> 60;
+        let (mut fa, mut sb) = (first.clone(), second.clone());
+        if h < 4 {
+            let stale = (Some(-lat * 0.5 + 11.0), Some(geo::wrap180(lon + 163.0)));
+            if h != 1 {
+                fa.latitude = stale.0;
+                fa.longitude = stale.1;
+            }
+            if h != 0 {
+                sb.latitude = stale.0;
+                sb.longitude = stale.1;
+            }
+            c.r.class("pair:position-fields-already-filled-in");
+        }
+        let (first, second) = (&fa, &sb);
         let res = guarded(|| airborne_position(first, second));
         let rp = || json!({"lat": lat, "lon": lon, "order": order, "even": [e.yz, e.xz], "odd": [o.yz, o.xz]});
         match res {
@@ -114,7 +136,7 @@ fn one(c: &mut Ctx, lat: f64, lon: f64, class: &'static str) {
 }
 
 pub fn run(a: &Args, r: &mut Report) {
-    r.rule = "true point -> independent encoder (even and odd) -> real airborne_position in both orders + same-parity pairs (the same report twice, the same place with another altitude and type code, the previous point's report of that parity). Points: area-uniform, latitude-uniform, dense +-0.01 deg sweeps of all 58 NL transition latitudes in both hemispheres, multiples of 6 and 360/59 deg, poles, equator, lon 0 / -180 / just below 180. distinct = distinct (even,odd,order) code tuples decoded within 10 m".into();
+    r.rule = "true point -> independent encoder (even and odd) -> real airborne_position in both orders (a quarter of the pairs with position fields already filled in by an earlier decode elsewhere) + same-parity pairs (the same report twice, the same place with another altitude and type code, the previous point's report of that parity). Points: area-uniform, latitude-uniform, dense +-0.01 deg sweeps of all 58 NL transition latitudes in both hemispheres, multiples of 6 and 360/59 deg, poles, equator, lon 0 / -180 / just below 180. distinct = distinct (even,odd,order) code tuples decoded within 10 m".into();
     r.assumptions.push("samples whose recovered latitude lies within 1e-7 deg of an NL transition are not judged for the None/Some clause (table vs closed-form NL rounding); 87 deg exactly, which the even lattice hits and the standard defines (NL = 2), is judged".into());
     let tr = geo::transitions();
     let mut c = Ctx { r, tr: tr.clone(), nl_seen: [[0; 60]; 2], some: 0, none_justified: 0, edge_skipped: 0, max_err: 0.0, prev: None, n: 0 };
